@@ -750,6 +750,18 @@ impl Skip {
             remaining: count,
         }
     }
+
+    // Skips the remaining output, returning any error that's encountered along the way
+    fn skip_remaining(&mut self) -> Option<Output> {
+        for _ in 0..take(&mut self.remaining) {
+            match self.iter.next() {
+                Some(error @ Output::Error(_)) => return Some(error),
+                Some(_) => {}
+                None => break,
+            }
+        }
+        None
+    }
 }
 
 impl KotoIterator for Skip {
@@ -767,9 +779,8 @@ impl KotoIterator for Skip {
 
     fn next_back(&mut self) -> Option<Output> {
         // Ensure the forward output has been skipped before yielding output from the back
-        if self.remaining > 0 {
-            self.iter.nth(self.remaining - 1);
-            self.remaining = 0;
+        if let Some(error) = self.skip_remaining() {
+            return Some(error);
         }
 
         self.iter.next_back()
@@ -780,11 +791,11 @@ impl Iterator for Skip {
     type Item = Output;
 
     fn next(&mut self) -> Option<Self::Item> {
-        if self.remaining > 0 {
-            self.iter.nth(take(&mut self.remaining))
-        } else {
-            self.iter.next()
+        if let Some(error) = self.skip_remaining() {
+            return Some(error);
         }
+
+        self.iter.next()
     }
 
     fn size_hint(&self) -> (usize, Option<usize>) {
@@ -839,7 +850,9 @@ impl Iterator for Step {
     fn next(&mut self) -> Option<Self::Item> {
         let result = self.iter.next();
         for _ in 0..self.step - 1 {
-            self.iter.next();
+            if let Some(error @ Output::Error(_)) = self.iter.next() {
+                return Some(error);
+            }
         }
         result
     }
